@@ -91,6 +91,22 @@ class World(object):
         """Materialise an argument spec for an actor."""
         ctx = self.actors[actor]
         t = spec['t']
+        if t in ('mpf', 'mpc') and spec.get('owner') == '*':
+            # a number of a context that is not an actor of the run at all (a throw-away clone of mp)
+            if getattr(self, '_outsider', None) is None:
+                self._outsider = self.actors['mp'].clone()
+            self.actors['*'] = self._outsider
+            try:
+                return self.mat('*', dict((k, v) for k, v in spec.items() if k != 'owner'))
+            finally:
+                del self.actors['*']
+        if t == 'mpmathobj':
+            # a user-defined number type: converts itself through the documented _mpmath_(prec, rounding) hook
+            val = self._mk_mpf('mp', self.actors['mp'], spec['v'])
+            class UserNumber(object):
+                def _mpmath_(self, prec, rounding):
+                    return val
+            return UserNumber()
         if t in ('mpf', 'mpc') and spec.get('owner') in self.actors and spec['owner'] != actor:
             # a number that belongs to another context handed to this one (C38: the receiving
             # context must compute with it as with its own number of the same value)
@@ -110,6 +126,9 @@ class World(object):
             return spec['v']
         if t == 'frac':
             return Fraction(int(spec['v'][0]), int(spec['v'][1]))
+        if t == 'mpq':
+            from mpmath.rational import mpq
+            return mpq(int(spec['v'][0]), int(spec['v'][1]))
         if t == 'mpf':
             return self._mk_mpf(actor, ctx, spec['v'])
         if t == 'mpc':
@@ -136,7 +155,10 @@ class World(object):
         if t == 'cb':
             return callbacks.Shim(self, ctx, spec)
         if t == 'obj':
-            return self.vals[spec['i']]
+            v = self.vals[spec['i']]
+            if 'k' in spec:          # a component of a returned tuple / list (e.g. the LU matrix of LU_decomp's result)
+                v = v[spec['k']]
+            return v
         if t == 'ref':
             v = self.vals.get(spec['i'], None)
             if v is not None and self._usable(actor, v):
